@@ -543,7 +543,8 @@ def _rand_body(rnd, names, crs_above, careful, allow_plain):
             if any(d['fn'] == fn for d in decls):
                 continue
         else:
-            fn = names.pop(0) if careful or rnd.random() < 0.93 or not decls else rnd.choice([d['fn'] for d in decls])
+            same = [d['fn'] for d in decls if d['kind'] in HANDLER_KINDS and _prefix(d) == pre]
+            fn = names.pop(0) if careful or rnd.random() < 0.93 or not same else rnd.choice(same)
         decls.append(_rand_decl(rnd, kind, keys, fn, crs))
         if kind == 'CR':
             crs.append(fn)
@@ -648,54 +649,73 @@ def _devs(extra):
     return devs
 
 
-def _judge(chk, traces, origins, note):
-    """TLC validates recorded executions; a rejected one or one needing a deviation is reported"""
-    if not traces:
-        return None
-    verdicts, st, trn, extra = validate_traces('Trace_RWHandler', traces, 'Trace_RWHandler.cfg', timeout=1500,
-                                               collect=('DEVS',), chunk=2500)
-    chk.states += st
-    chk.transitions += trn
-    devs = _devs(extra)
-    count = {}
-    clean = None
-    for i, v in verdicts.items():
-        tr = traces[i]
-        if v is not None:
-            pos = v[0]
-            ev = tr[pos - 1] if 0 < pos <= len(tr) else {}
-            lay = next((e['lay'] for e in reversed(tr[:pos]) if e['act'] == 'define'), {})
-            kinds = sorted({d['kind'] for d in lay.get('base', []) + lay.get('sub', [])})
-            chk.violation({'module': 'RWHandler', 'trace_event': ev.get('act'), 'kinds': ','.join(kinds),
-                           'layout': lay.get('name', '')},
-                          dict(origins[i], failed_at=pos, event=ev, trace=tr))
-        else:
-            if clean is None and not devs.get(i) and sum(1 for e in tr if e['act'] in ('read', 'change')) >= 2:
-                clean = tr
-            for dev in sorted(devs.get(i, ())):
-                count[dev] = count.get(dev, 0) + 1
-                chk.violation({'module': 'RWHandler', 'deviation': dev}, dict(origins[i], trace=tr))
-    chk.notes[note] = count
-    return clean
-
-
-def _corrupt_must_be_rejected(trace):
-    """binding self-test: a recorded execution with one corrupted observation must not be accepted"""
+def _corrupt(trace):
+    """binding self-test: two corruptions of a recorded execution (a reply, a bystander's cache) - none may be accepted"""
     bad = json.loads(json.dumps(trace))
     for e in bad:
         if e['act'] in ('read', 'change') and e['obs']['res']['ok']:
             e['obs']['res']['v'] = (e['obs']['res']['v'] + 1) % 4
             break
+    else:
+        return None
     bad2 = json.loads(json.dumps(trace))
     for e in bad2:
         if e['act'] == 'start':
             c = e['obs']['mods']['n']['cache']['b']
             c['v'] = (c['v'] + 1) % 4
             break
-    verdicts, _, _ = validate_traces('Trace_RWHandler', [trace, bad, bad2], 'Trace_RWHandler.cfg', timeout=300)
-    if verdicts[0] is not None or verdicts[1] is None or verdicts[2] is None:
-        raise MachineryError(f'Trace_RWHandler self-test failed: original {verdicts[0]}, corrupted reply {verdicts[1]}, '
-                             f'corrupted bystander {verdicts[2]}')
+    else:
+        return None
+    return [bad, bad2]
+
+
+def _judge(chk, traces, origins):
+    """TLC validates recorded executions; a rejected one or one needing a deviation is reported.
+    The corrupted copies of the first few clean-looking executions ride along (binding self-test)."""
+    probes = []                       # (index of the original, index of the first corrupted copy)
+    batch = list(traces)
+    for i, tr in enumerate(traces):
+        if len(probes) >= 6:
+            break
+        if origins[i].get('world') == 'rnd' and sum(1 for e in tr if e['act'] in ('read', 'change')) >= 2:
+            c = _corrupt(tr)
+            if c:
+                probes.append((i, len(batch)))
+                batch += c
+    verdicts, st, trn, extra = validate_traces('Trace_RWHandler', batch, 'Trace_RWHandler.cfg', timeout=1500,
+                                               collect=('DEVS',), chunk=100000)
+    chk.states += st
+    chk.transitions += trn
+    devs = _devs(extra)
+    count = {'beh': {}, 'rnd': {}}
+    for i in range(len(traces)):
+        v = verdicts[i]
+        tr = traces[i]
+        if v is not None:
+            pos = v[0]
+            ev = tr[pos - 1] if 0 < pos <= len(tr) else {}
+            lay = next((e['lay'] for e in reversed(tr[:max(pos, 1)]) if e['act'] == 'define'), {})
+            kinds = sorted({d['kind'] for d in lay.get('base', []) + lay.get('sub', [])})
+            chk.violation({'module': 'RWHandler', 'trace_event': ev.get('act'), 'kinds': ','.join(kinds),
+                           'layout': lay.get('name', '')},
+                          dict(origins[i], failed_at=pos, event=ev, trace=tr))
+        else:
+            for dev in sorted(devs.get(i, ())):
+                c = count[origins[i]['world']]
+                c[dev] = c.get(dev, 0) + 1
+                chk.violation({'module': 'RWHandler', 'deviation': dev}, dict(origins[i], trace=tr))
+    chk.notes['deviations_needed_by_disagreeing_behaviours'] = count['beh']
+    chk.notes['deviations_needed_by_random_scripts'] = count['rnd']
+    tested = 0
+    for i, j in probes:
+        if verdicts[i] is None and not devs.get(i):
+            tested += 1
+            if verdicts[j] is None or verdicts[j + 1] is None:
+                raise MachineryError(f'Trace_RWHandler self-test failed: corrupted reply {verdicts[j]}, '
+                                     f'corrupted bystander {verdicts[j + 1]} (trace {i})')
+    if probes and not tested:
+        raise MachineryError('Trace_RWHandler self-test: none of the probe executions was accepted without deviation')
+    chk.notes['binding_selftest'] = tested
 
 
 GEN_QUICK = ['common', 'mixed', 'plain', 'cfg', 'sub', 'sub2', 'defs']
@@ -731,7 +751,7 @@ def run(chk):
     nmc = len(thunks)
     thunks += [lambda cfg=cfg: run_tlc('RWHandlerCat', cfg, timeout=600) for cfg, _ in MUST_FAIL]
     thunks += [lambda cfg=cfg: emit_behaviours('Gen_RWHandler', cfg, maximal_only=False, timeout=1400) for cfg in gens]
-    out = run_parallel(thunks, width=8 if quick else 6)
+    out = run_parallel(thunks, width=16 if quick else 6)
     for r in out[:nmc]:
         chk.add_tlc(r)
     for r, (cfg, props) in zip(out[nmc:nmc + len(MUST_FAIL)], MUST_FAIL):
@@ -748,8 +768,9 @@ def run(chk):
     for b in behs:
         keyed.setdefault(json.dumps([{k: v for k, v in s.items() if k != 'exp'} for s in b], sort_keys=True), b)
     jobs = [keyed[k] for k in sorted(keyed)]
-    if quick and len(jobs) > 24000:
-        step = -(-len(jobs) // 24000)
+    cap = 9000
+    if quick and len(jobs) > cap:
+        step = -(-len(jobs) // cap)
         jobs = jobs[chk.seed % step::step]
         chk.notes['behaviours_sampled'] = f'1 of {step}'
     res = pool_map(_replay_job, jobs)
@@ -769,14 +790,11 @@ def run(chk):
     if jobs:
         chk.sample({'behaviour': [{k: v for k, v in s.items() if k != 'exp'} for s in jobs[len(jobs) // 2]]})
     stage['replay'] = round(_t.time() - t0, 1)
-    # a disagreement is explained by a named deviation (known finding) or it is a violation
-    _judge(chk, bad_traces, bad_origin, 'deviations_needed_by_disagreeing_behaviours')
-    stage['judge'] = round(_t.time() - t0, 1)
 
-    # ---- code -> spec
-    n = 1500 if quick else 20000
+    # ---- code -> spec: seeded random scripts over random layouts
+    n = 1000 if quick else 20000
     runs = pool_map(_random_job, [chk.seed * 1000003 + i for i in range(n)])
-    traces, origins = [], []
+    traces, origins = list(bad_traces), list(bad_origin)
     for seed, (tr, crash) in runs:
         chk.impl_traces += 1
         chk.case(('rnd', seed), any(m['calls'] for e in tr for m in e['obs']['mods'].values()))
@@ -786,14 +804,12 @@ def run(chk):
         else:
             traces.append(tr)
             origins.append({'world': 'rnd', 'seed': seed})
-    clean = _judge(chk, traces, origins, 'deviations_needed_by_random_scripts')
-    if traces:
-        chk.sample({'random_trace_inputs': [{k: v for k, v in e.items() if k not in ('obs', 'lay')} for e in traces[0][:8]]})
     stage['random'] = round(_t.time() - t0, 1)
-    if clean:
-        _corrupt_must_be_rejected(clean)
-    chk.notes['binding_selftest'] = bool(clean)
-    stage['selftest'] = round(_t.time() - t0, 1)
+    # a disagreeing behaviour is explained by a named deviation (known finding) or it is a violation; so is a random script
+    _judge(chk, traces, origins)
+    if runs:
+        chk.sample({'random_trace_inputs': [{k: v for k, v in e.items() if k not in ('obs', 'lay')} for e in runs[0][1][0][:8]]})
+    stage['judge'] = round(_t.time() - t0, 1)
     chk.notes['wall_until_end_of_stage'] = stage
     chk.exhaustive = False
 
